@@ -1,6 +1,6 @@
 (* TenantCheck.v — executable comparison of the tenant model with observations of
    the real siglens code (used by the generated case files of C13). *)
-From SigM Require Import Base Tenant.
+From SigM Require Import Base Tenant TenantCrash.
 Open Scope N_scope.
 
 Definition subset {A} (eqb : A -> A -> bool) (a b : list A) : bool :=
@@ -98,3 +98,14 @@ Fixpoint check_sid_distinct (obs : list (N * name * list N)) (idx : nat) : list 
 
 Definition check_sid (htbl : list (name * N)) (obs : list (N * name * list N)) : list nat :=
   check_sid_str htbl obs 0 ++ check_sid_distinct obs 0.
+
+(* crash-recovery stream: the model with on-disk records (TenantCrash.v) against the observed outputs;
+   index = 1000 * scenario + op *)
+Definition check_crash_run (ops : list cop) (obs : list out) : list nat :=
+  mismatches (couts cinit ops) obs 0.
+
+Fixpoint check_crash_runs (cs : list (list cop * list out)) (k : nat) : list nat :=
+  match cs with
+  | [] => []
+  | (ops, obs) :: r => map (fun i => (1000 * k + i)%nat) (check_crash_run ops obs) ++ check_crash_runs r (S k)
+  end.
